@@ -109,6 +109,8 @@ def children(x):
 def leaf_sig(x):
   if isinstance(x, (jax.Array, np.ndarray)):
     a = np.asarray(x)
+    if a.dtype.kind == 'f':
+      a = a + 0.0          # -0.0 and 0.0 are the same value
     return ('array', str(a.dtype), a.shape, a.tobytes())
   return ('static', type(x).__name__, repr(x))
 
